@@ -49,4 +49,14 @@ SPECS = [
     dict(name="ev_restart", file=_EV, qual="evaluate_policy", start=r"^current_rewards\[i\] = ", end=r"^current_lengths\[i\] = ",
          inputs=[], subst={"current_rewards[i]": "cur_r", "current_lengths[i]": "cur_l"},
          outputs=[("cur_r", "Z"), ("cur_l", "Z")]),
+    # the monitor-aware branch (life-loss "done" without an "episode" entry is not an episode end) and the two counters
+    dict(name="ev_monitor_branch", file=_EV, qual="evaluate_policy", start=r"^if is_monitor_wrapped:", end=None, kind="test",
+         inputs=[("is_monitor_wrapped", "bool")]),
+    dict(name="ev_has_episode", file=_EV, qual="evaluate_policy", start=r"^if .*episode.* in info", end=None, kind="test",
+         inputs=[("has_episode", "bool"), ("no_episode", "bool")],
+         subst={"'episode' in info.keys()": "has_episode", "'episode' in info": "has_episode", "'episode' not in info.keys()": "no_episode"}),
+    dict(name="ev_count_mon", file=_EV, qual="evaluate_policy", start=r"^episode_counts\[i\] [-+*/]= ", nth=0, of=2, end=None,
+         inputs=[("count", "Z")], subst={"episode_counts[i]": "count"}, outputs=[("count", "Z")]),
+    dict(name="ev_count_nomon", file=_EV, qual="evaluate_policy", start=r"^episode_counts\[i\] [-+*/]= ", nth=1, of=2, end=None,
+         inputs=[("count", "Z")], subst={"episode_counts[i]": "count"}, outputs=[("count", "Z")]),
 ]
